@@ -1027,4 +1027,14 @@ def run(ck):
         c08_7(ck, prog)
         c08_8(ck, prog)
         c08_9(ck, prog)
+        r = ck.rule('C08.11', 'the response to a cookie challenge is accepted only when it equals the expected hash as a '
+                    'whole (shared with C04.6): _dbus_string_equal answers TRUE only when the lengths are equal and every '
+                    'byte was compared', 'TS', breaks='any prefix of the correct SHA-1 digest is accepted: a peer that '
+                    'never saw the cookie guesses one hex digit and is authenticated as the owner of the bus', floor=2)
+        lib.whole_string_equality(prog, r)
+        r = ck.rule('C08.12', 'cookie ages are measured on the wall clock they were stamped with: _dbus_get_real_time '
+                    'reads the realtime clock (gettimeofday / CLOCK_REALTIME), _dbus_get_monotonic_time the monotonic one',
+                    'TAB', breaks='keyring entries carry wall-clock stamps; judged against the time since boot an '
+                    'arbitrarily old cookie counts as fresh and is offered and accepted', floor=2)
+        lib.clocks_named(prog, r)
         c08_10(ck, prog)
